@@ -22,6 +22,9 @@ class Ctx:
     def __init__(self, unit, case, tier):
         self.unit, self.case, self.tier = unit, case, tier
         self.state = State()
+        global LIB
+        LIB = lib_for(getattr(unit, "prop", None))      # `from pyvc.vc import LIB` in a contract = the current table
+        LIB.activate()
         self.interp = Interp(LIB, summaries=dict(unit.summaries), loop_hints=dict(unit.loop_hints))
         self.interp.loop_opts = dict(getattr(unit, "loop_opts", None) or {})
         self.ghost = {}
@@ -145,7 +148,18 @@ class Unit:
         return {"ran": False, "failed": False, "error": "no replay harness for this unit"}
 
 
-LIB = Lib()
+_LIBS = {}
+
+
+def lib_for(prop):
+    """library-contract table for the units of one property (base table + that property's libext module with precedence
+    + the names only other properties' libext modules define)"""
+    if prop not in _LIBS:
+        _LIBS[prop] = Lib(prop)
+    return _LIBS[prop]
+
+
+LIB = lib_for(None)
 
 
 def function_source_sha(module, qualname):
